@@ -54,6 +54,7 @@ func ruleLeaveComplete(r *Run) {
 	iterRemove, iterKeepPersist, iterKeepMissing := 0, 0, 0
 	for pi := range paths {
 		path := &paths[pi]
+		r.at(path)
 		sig := r.pathSig(path)
 		// early exit (nothing joined) is the only path allowed to skip the work
 		notJoined := false
@@ -254,6 +255,7 @@ func ruleLeaveCallers(r *Run) {
 		r.Analysed(fn, len(paths))
 		for pi := range paths {
 			path := &paths[pi]
+			r.at(path)
 			i := idxOfCall(path, leave, 0)
 			if i < 0 {
 				continue
@@ -275,6 +277,7 @@ func ruleLeaveCallers(r *Run) {
 	if jf := r.P.FuncByName("websocket.(*RealtimeHandler).HandleParticipantJoin"); jf != nil && addP != nil {
 		nJoin := 0
 		for _, path := range r.Paths(jf) {
+			r.at(&path)
 			iAdd := idxOfCall(&path, addP, 0)
 			if iAdd < 0 {
 				continue
@@ -310,6 +313,7 @@ func ruleLeaveCallers(r *Run) {
 	}
 	reaches := false
 	for _, path := range r.Paths(hd) {
+		r.at(&path)
 		if idxOfCall(&path, leave, 0) >= 0 {
 			reaches = true
 		}
@@ -349,6 +353,7 @@ func ruleModuleCleanup(r *Run) {
 		cases := map[string]int{}
 		for pi := range paths {
 			path := &paths[pi]
+			r.at(path)
 			r.loopsComplete("E3", fn, path)
 			for i, ev := range path.Events {
 				if ev.Kind != EvGuard || ev.GKind != GRange || !ev.Val {
@@ -405,6 +410,7 @@ func ruleModuleCleanup(r *Run) {
 		r.Analysed(del, len(dpaths))
 		for pi := range dpaths {
 			path := &dpaths[pi]
+			r.at(path)
 			lookup := ""
 			removed, argOK := false, false
 			for i, ev := range path.Events {
@@ -471,6 +477,7 @@ func rulePairedState(r *Run) {
 		r.Analysed(fn, len(paths))
 		for pi := range paths {
 			path := &paths[pi]
+			r.at(path)
 			state := map[types.Object]string{}
 			for _, ev := range path.Events {
 				if ev.Kind != EvAssign || len(ev.Lhs) != len(ev.Rhs) {
@@ -605,6 +612,7 @@ func ruleDispatchTotal(r *Run) {
 	}
 	for pi := range paths {
 		path := &paths[pi]
+		r.at(path)
 		coreIdx, coreErr := -1, ""
 		tested := map[string]bool{}
 		for i, ev := range path.Events {
@@ -652,6 +660,7 @@ func ruleDispatchTotal(r *Run) {
 	calls := 0
 	for pi := range ipaths {
 		path := &ipaths[pi]
+		r.at(path)
 		i := idxOfCall(path, hm, 0)
 		if i < 0 {
 			continue
@@ -706,6 +715,7 @@ func ruleDecoratorForward(r *Run) {
 			}
 			for pi := range paths {
 				path := &paths[pi]
+				r.at(path)
 				var inner []int
 				for k, ev := range path.Events {
 					if ev.Kind == EvCall && ev.Callee == im && ev.Recv != nil && r.P.Canon(ev.Fn, ev.Recv) == "recv.Handler" {
@@ -792,6 +802,7 @@ func (r *Run) returnsClosureResult(f *types.Func) bool {
 	}
 	for pi := range paths {
 		path := &paths[pi]
+		r.at(path)
 		calls := 0
 		for _, ev := range path.Events {
 			if ev.Kind == EvCall && ev.Callee == param {
@@ -840,6 +851,7 @@ func (r *Run) checkWrappedClosure(def *Func, im *types.Func) {
 	r.Analysed(lf, len(paths))
 	for pi := range paths {
 		path := &paths[pi]
+		r.at(path)
 		var calls []Event
 		for _, ev := range path.Events {
 			if ev.Kind == EvCall && ev.Call != nil {
